@@ -116,6 +116,9 @@ enum What {
 	Err { code: i32, pay: PaySpec },
 	/// call to a method that is not registered (constant protocol error -32601)
 	Unknown,
+	/// call to a blocking method whose callback panics with a message of this many bytes: the library answers with its
+	/// constant -32603 (how long the panic message is must not show in the reply)
+	Panic(u32),
 	/// no id: never answered, contributes nothing to a batch reply
 	Notif,
 	/// batch entry that is no request: the number `1` (answered -32600 with id null) or an object with nothing but an id
@@ -175,6 +178,7 @@ fn request_text(c: &Call) -> String {
 			c.id_wire, p.shape, p.kind, p.units, p.fill
 		),
 		What::Unknown => format!("{{\"jsonrpc\":\"2.0\",\"id\":{},\"method\":\"no_such_method\",\"params\":[1{pad}]}}", c.id_wire),
+		What::Panic(n) => format!("{{\"jsonrpc\":\"2.0\",\"id\":{},\"method\":\"panic_blocking\",\"params\":[{n}{pad}]}}", c.id_wire),
 		What::Notif => format!("{{\"jsonrpc\":\"2.0\",\"method\":\"gen{fl}\",\"params\":[0,0,1,1{pad}]}}"),
 		What::Invalid { with_id: true } => format!("{{\"jsonrpc\":\"2.0\",\"id\":{}}}", c.id_wire),
 		What::Invalid { with_id: false } => "1".to_string(),
@@ -197,6 +201,7 @@ fn expected_single(c: &Call) -> Option<String> {
 		What::Unknown => {
 			Some(format!("{{\"jsonrpc\":\"2.0\",\"id\":{},\"error\":{{\"code\":-32601,\"message\":\"Method not found\"}}}}", c.id))
 		}
+		What::Panic(_) => Some(format!("{{\"jsonrpc\":\"2.0\",\"id\":{},\"error\":{{\"code\":-32603,\"message\":\"Internal error\"}}}}", c.id)),
 		What::Notif => None,
 		What::Invalid { with_id } => Some(format!(
 			"{{\"jsonrpc\":\"2.0\",\"id\":{},\"error\":{{\"code\":-32600,\"message\":\"Invalid request\"}}}}",
@@ -227,6 +232,7 @@ fn what_name(w: &What) -> &'static str {
 		What::Gen(_) => "result",
 		What::Err { .. } => "error",
 		What::Unknown => "unknown-method",
+		What::Panic(_) => "panicking-blocking-method",
 		What::Notif => "notification",
 		What::Invalid { .. } => "invalid-entry",
 	}
@@ -308,7 +314,7 @@ fn judge_single(c: &Call, limit: u32, replies: &[Vec<u8>], invocations: Option<u
 
 	// acceptance does not depend on the response limit: a registered method runs exactly once, whatever the limit
 	if let Some(n) = invocations {
-		let want = matches!(c.what, What::Gen(_) | What::Err { .. }) as usize;
+		let want = matches!(c.what, What::Gen(_) | What::Err { .. } | What::Panic(_)) as usize;
 		if n != want {
 			v("handler-invocations", format!("handler ran {n} time(s), expected {want}"));
 		}
@@ -355,7 +361,7 @@ fn judge_single(c: &Call, limit: u32, replies: &[Vec<u8>], invocations: Option<u
 		} else {
 			out.accepted_text = Some(String::from_utf8_lossy(wire).into_owned());
 		}
-	} else if matches!(c.what, What::Unknown) && parsed == exp_val {
+	} else if matches!(c.what, What::Unknown | What::Panic(_)) && parsed == exp_val {
 		// constant protocol error above a tiny limit: covered by the floor (design relaxation), sent as is
 		out.accepted_text = Some(String::from_utf8_lossy(wire).into_owned());
 	} else if parsed == exp_val {
@@ -564,6 +570,11 @@ fn plan_single(r: &mut Rng, limit: u32) -> Call {
 	let flavor = r.below(3) as u8;
 	if r.chance(1, 40) {
 		return Call { id: id.0, id_wire: id.1, flavor: 0, what: What::Unknown, pad: pick_pad(r) };
+	}
+	if r.chance(1, 30) {
+		// the panic message as long as a result that would land around the limit, or far beyond it
+		let n = if r.bool() { pick_target(r, limit) as u32 } else { limit.saturating_add(r.below(2000) as u32) };
+		return Call { id: id.0, id_wire: id.1, flavor: 2, what: What::Panic(n.min(100_000)), pad: 0 };
 	}
 	let is_err = r.chance(1, 3);
 	let want = pick_target(r, limit);
@@ -818,6 +829,15 @@ fn module(log: HLog) -> RpcModule<HLog> {
 	m.register_blocking_method("err_blocking", |p, log, _| {
 		log.push("err_blocking");
 		do_err(&p)
+	})
+	.unwrap();
+	m.register_blocking_method("panic_blocking", |p, log, _| {
+		log.push("panic_blocking");
+		let n: usize = p.sequence().next().unwrap_or(0);
+		if true {
+			panic!("{}: {}", jrv::handlers::PANIC_MARK, "x".repeat(n));
+		}
+		0u8
 	})
 	.unwrap();
 	m.register_subscription("sub", "sub_notif", "unsub", |p, pending, log, _| async move {
@@ -1438,7 +1458,7 @@ fn direct_workload(seed: u64, n: usize, limits: &[u32], ev: &mut Evidence, viola
 		let limit = *r.pick(limits);
 		let case = if r.chance(3, 5) {
 			let mut c = plan_single(&mut r, limit);
-			if matches!(c.what, What::Unknown) {
+			if matches!(c.what, What::Unknown | What::Panic(_)) {
 				let id = gen_id(&mut r, true);
 				c = tune_call(&mut r, id, 0, false, limit as usize, 0);
 			}
@@ -1578,7 +1598,7 @@ fn main() {
 					let mut r = Rng::new(1);
 					let c2 = Case::Batch { limit: *limit, entries: only_calls(entries.clone(), &mut r) };
 					run_direct_case(&c2, &mut ev, &mut v);
-				} else if matches!(c, Case::Single { call, .. } if !matches!(call.what, What::Unknown | What::Notif)) {
+				} else if matches!(c, Case::Single { call, .. } if !matches!(call.what, What::Unknown | What::Panic(_) | What::Notif)) {
 					run_direct_case(c, &mut ev, &mut v);
 				}
 			}
